@@ -750,7 +750,7 @@ def run_chunk(task, agg):
     sys.unraisablehook = _quiet_unraisable
     sv = env.load_soupsieve(cache_bound=cfg['bound'])
     for i in task['indices']:
-        agg.merge(runner.isolated(_one_run, sv, task['verif_seed'], cfg, i, len(agg.samples)))
+        runner.merge_isolated(agg, f"{cfg['name']}:{i}", _one_run, sv, task['verif_seed'], cfg, i, len(agg.samples))
 
 
 def _one_run(sv, verif_seed, cfg, i, nsamples):
